@@ -8,6 +8,7 @@ from ..lib import call
 
 PROP = "C02"
 PLAN = {"quick": (1600, 150), "thorough": (24000, 1500)}
+LARGE = (0.03, 64)  # (share, largest size) of the large class of gen.kv: 17+ control points, degree up to 8
 RULE = ("case = (knot vector p<=5, optional positive weights, number type, probe parameters); enumerated multiplicity "
         "patterns first (p<=4, <=3 interior knots), then random vectors up to p=5; every j<=p, every i in -n..n-1 "
         "(subsampled to 10 when n>5), random slices, scalar and sequence u; non-trivial = p>=1 (so j<p exists) or a "
